@@ -177,7 +177,8 @@ PickCont(r) ==
         hit == ~cleared /\ r.count = prevCount /\ mcache[r.q] # None /\ mcache[r.q].final = r.final
         mc1 == IF cleared \/ r.count # prevCount THEN [q \in Queries |-> None] ELSE mcache
         immediate == r.count = 0 \/ (r.q = "" /\ r.deny = {})   \* EmptyMerger / PassMerger: no scan (a pattern with exclusions is never "empty")
-        m == IF hit THEN [mcache[r.q] EXCEPT !.final = r.final, !.no = r.no] ELSE Merger(r, FilterD("", r.snap, r.deny))
+        m == IF hit THEN [mcache[r.q] EXCEPT !.final = r.final, !.no = r.no, !.snap = r.snap]     \* handed out as the answer to r
+             ELSE Merger(r, FilterD("", r.snap, r.deny))
     IN /\ msort' = r.sort /\ mgen' = <<r.major, r.gen, r.trims>>
        /\ prevCount' = IF ~cleared /\ r.count # prevCount THEN r.count ELSE prevCount
        /\ IF hit \/ immediate
